@@ -83,45 +83,71 @@ func runOp(c *kafka.Conn, i *inst) (res, digest string) {
 }
 
 // scenario runs A then B on one Conn; B alone on a fresh Conn gives the reference digest.
+// opDeadline is the Conn deadline of every exchange (in-process exchanges take microseconds); opWatchdog bounds a
+// single operation that ignores its deadline (e.g. one waiting for a lock that is never released).
+const (
+	opDeadline = 2 * time.Second
+	opWatchdog = 4 * time.Second
+)
+
+// guarded runs one operation under the watchdog; a hung operation yields "hang" (its goroutine is abandoned).
+func guarded(c *kafka.Conn, i *inst) (res, digest string) {
+	type rd struct{ res, dig string }
+	ch := make(chan rd, 1)
+	go func() {
+		c.SetDeadline(time.Now().Add(opDeadline))
+		r, d := runOp(c, i)
+		ch <- rd{r, d}
+	}()
+	select {
+	case x := <-ch:
+		return x.res, x.dig
+	case <-time.After(opWatchdog):
+		return "hang", ""
+	}
+}
+
+func guardedBuffered(c *kafka.Conn) string {
+	ch := make(chan int, 1)
+	go func() { ch <- kafka.VerifConnBuffered(c) }()
+	select {
+	case n := <-ch:
+		return fmt.Sprint(n)
+	case <-time.After(time.Second):
+		return "locked"
+	}
+}
+
+// scenario runs A then B on one Conn; B alone on a fresh Conn gives the reference digest.
 func scenario(a, b *inst) (line string, slow bool) {
 	sel := map[int16]int16{b.op.Key: b.v}
 	sel[a.op.Key] = a.v
 	t0 := time.Now()
-	done := make(chan string, 1)
-	go func() {
-		c, br := connfake.Start(topic, connfake.VersionTable(sel))
-		defer br.Stop()
-		defer c.Close()
-		c.SetDeadline(time.Now().Add(10 * time.Second))
-		br.Push(a.op.Key, connfake.Resp{Body: a.body, Cut: -1})
-		br.Push(b.op.Key, connfake.Resp{Body: b.body, Cut: -1})
-		resA, _ := runOp(c, a)
-		unread := "-"
-		if resA == "ok" || resA[0] == 'k' {
-			unread = fmt.Sprint(kafka.VerifConnBuffered(c))
-		}
-		resB, digB := runOp(c, b)
-		same := "diff"
-		{
-			c2, br2 := connfake.Start(topic, connfake.VersionTable(sel))
-			c2.SetDeadline(time.Now().Add(10 * time.Second))
-			br2.Push(b.op.Key, connfake.Resp{Body: b.body, Cut: -1})
-			resF, digF := runOp(c2, b)
-			c2.Close()
-			br2.Stop()
-			if resF == resB && digF == digB {
-				same = "same"
-			}
-		}
-		done <- fmt.Sprintf("%s %s %s %s", resA, unread, resB, same)
-	}()
-	var impl string
-	select {
-	case impl = <-done:
-	case <-time.After(30 * time.Second):
-		impl = "hang - hang diff"
+	c, br := connfake.Start(topic, connfake.VersionTable(sel))
+	br.Push(a.op.Key, connfake.Resp{Body: a.body, Cut: -1})
+	br.Push(b.op.Key, connfake.Resp{Body: b.body, Cut: -1})
+	resA, _ := guarded(c, a)
+	unread := "-"
+	if resA == "ok" || resA[0] == 'k' {
+		unread = guardedBuffered(c)
 	}
-	return fmt.Sprintf("c11 %s %s %s\t%s", gen.Hex([]byte(topic)), a, b, impl), time.Since(t0) > 3*time.Second
+	resB, digB := "hang", ""
+	if resA != "hang" {
+		resB, digB = guarded(c, b)
+	}
+	go func() { c.Close(); br.Stop() }()
+	same := "diff"
+	if resB != "hang" {
+		c2, br2 := connfake.Start(topic, connfake.VersionTable(sel))
+		br2.Push(b.op.Key, connfake.Resp{Body: b.body, Cut: -1})
+		resF, digF := guarded(c2, b)
+		go func() { c2.Close(); br2.Stop() }()
+		if resF == resB && digF == digB {
+			same = "same"
+		}
+	}
+	impl := fmt.Sprintf("%s %s %s %s", resA, unread, resB, same)
+	return fmt.Sprintf("c11 %s %s %s\t%s", gen.Hex([]byte(topic)), a, b, impl), time.Since(t0) > time.Second
 }
 
 var codes = []int16{1, 3, 5, 6, 7, 9, 14, 15, 16, 19, 20, 22, 25, 27, 29, 36, 41, -1, 87, 32767, -32768}
@@ -135,6 +161,9 @@ func main() {
 	}
 	ncases, nslow := 0, 0
 	emit := func(a, b *inst) {
+		if nslow >= 5 {
+			return // every blocked case costs its deadlines/watchdogs: a handful is enough for the replay
+		}
 		l, slow := scenario(a, b)
 		fmt.Fprintln(out, l)
 		ncases++
@@ -198,7 +227,12 @@ func main() {
 					for _, code := range cs {
 						errs := make([]int16, f+1)
 						errs[f] = code
-						a, _ := build(r, op, v, errs, false)
+						a, n := build(r, op, v, errs, false)
+						// array-bearing responses: make sure the error sits in a NON-LAST entry as well (an early exit
+						// inside the element loop leaves the following entries unread)
+						for try := 0; try < 8 && ne >= 2 && n <= f+1; try++ {
+							a, n = build(r, op, v, errs, false)
+						}
 						emit(a, follower(a))
 					}
 				}
@@ -248,5 +282,5 @@ func main() {
 		}
 	}
 	out.Flush()
-	fmt.Fprintf(os.Stderr, "c11 driver: %d cases, %d slower than 3s\n", ncases, nslow)
+	fmt.Fprintf(os.Stderr, "c11 driver: %d cases, %d slower than 1s (generation stops at 5)\n", ncases, nslow)
 }
